@@ -512,7 +512,11 @@ def oracle_snapshot(res):
     out = []
     for c in res["configs"]:
         svcs = sorted((s.protocol.name, s.port, s.identifier, tuple(sorted(s.properties.items()))) for s in c.services)
-        out.append((str(c.address), tuple(sorted(c.all_identifiers)), tuple(svcs), c.device_info.model.name, bool(c.deep_sleep)))
+        # the per-service-type properties the configuration exposes (config.properties) are part of
+        # "services with ports and properties" just as the merged per-protocol ones are
+        raw = tuple(sorted((str(t), tuple(sorted((str(k), str(v)) for k, v in dict(p).items())))
+                           for t, p in dict(c.properties).items()))
+        out.append((str(c.address), tuple(sorted(c.all_identifiers)), tuple(svcs), c.device_info.model.name, bool(c.deep_sleep), raw))
     return sorted(out, key=repr)
 
 
